@@ -145,6 +145,11 @@ class Mini:
                 raise Unsupported(f"unknown name {e.id}")
             if isinstance(v, _PLAIN):
                 return v
+            if type(v).__name__ == "StructVal":
+                # a module-level struct.Struct: the standard library's own packer (checker-owned, not code of the package)
+                import struct as _struct
+
+                return _struct.Struct(v.fmt)
             if type(v).__name__ == "DCVal" and all(isinstance(x, _PLAIN) for x in v.fields.values()):
                 # a module-level dataclass instance is ONE object shared by every reader (mutations and identity are visible)
                 obj = FakeObj(v.cls.name, **dict(v.fields))
@@ -164,6 +169,10 @@ class Mini:
                 if e.attr in base.__dict__:
                     return base.__dict__[e.attr]
                 raise Unsupported(f"{t}: the stand-in object has no attribute {e.attr}")
+            if type(base).__name__ == "Struct" and e.attr in ("size", "format"):
+                return getattr(base, e.attr)
+            if isinstance(base, EnumVal) and e.attr in ("value", "name"):
+                return getattr(base, e.attr)
             try:
                 v = self.repo.fold(self.module, e)
             except NotConst:
@@ -352,6 +361,23 @@ class Mini:
                     except Exception as ex:
                         raise Unsupported(f"{t}: {ex}")
                     return list(r) if isinstance(r, list) else r
+            if isinstance(e.func, ast.Attribute) and e.func.attr in ("pack", "unpack", "unpack_from") and not e.keywords:
+                try:
+                    recv = self.ev(e.func.value, env)
+                except Unsupported:
+                    recv = None
+                if type(recv).__name__ == "Struct":
+                    args = []
+                    for a in e.args:
+                        if isinstance(a, ast.Starred):
+                            args.extend(self.ev(a.value, env))
+                        else:
+                            args.append(self.ev(a, env))
+                    try:
+                        r = getattr(recv, e.func.attr)(*[bytes(a) if isinstance(a, bytearray) and e.func.attr != "pack" else a for a in args])
+                    except Exception as ex:  # struct.error, TypeError: what the running code would raise as well
+                        raise _PyRaise(type(ex).__name__)
+                    return r
             if d in ("iter",) and len(e.args) == 1 and not e.keywords:
                 v = self.ev(e.args[0], env)
                 if isinstance(v, FakeObj) and getattr(v, "_ci", None) is not None and "__iter__" in v._ci.methods:
@@ -402,6 +428,11 @@ class Mini:
                 for k in e.keywords:
                     if k.arg:
                         fields[k.arg] = self.ev(k.value, env)
+                    else:
+                        extra = self.ev(k.value, env)
+                        if not isinstance(extra, dict) or not all(isinstance(x, str) for x in extra):
+                            raise Unsupported(f"** of a non-mapping: {t[:60]}")
+                        fields.update(extra)
                 return FakeObj(ci.name, **fields)
             if ci is not None and not ci.is_dataclass and not ci.is_enum() and ci.module.name == self.module.name and ci.name.startswith("_"):
                 # a private helper class of the module: an object with its own attributes, built by running __init__
